@@ -694,7 +694,7 @@ def run(ctx):
     # beyond C03's stated universe: datetimes / dates / times / timedeltas / Decimals inside the model (Diff/XuModel.v,
     # Diff/XuSpec.v): positional mode, model vs implementation, Coq definition vs implementation where it applies literally
     from harness import xucommon as XU
-    XU.stream_c03(ctx, XU.gen_pairs(ctx.rng, 110 if ctx.thorough else 12))
+    XU.stream_c03(ctx, XU.gen_pairs(ctx.rng, 60 if ctx.thorough else 6))
 
 
 def replay(ctx, data):
